@@ -1,8 +1,10 @@
 """Seeded histories for engine A (C11): ack-required locks on a leader with 0..2 follower links, interleaved with
 follower acks (positive / negative / lost by a cut), leader flushes (ok / failing in the entry write, in the value write, in
 both; for good or for a while; with the channel goroutine let run between the two writes), timeouts, unlock pre-emption,
-demotion; wider than the bounded AckQuorum model (several keys, more requests, INCR / APPEND / SET value operations,
-shared keys, parked DoAckLock).  Same step format as the TLC-generated behaviours."""
+demotion; wider than the bounded AckQuorum model (several keys, more requests, the whole value-operation alphabet of
+spec/ValueReg.tla - SET / UNSET / INCR / APPEND / SHIFT / PUSH / POP / PIPELINE incl. nested, empty and header-only sub-frames -
+on keys in every prior state: no value, unset value object, value, value with properties; shared keys, parked DoAckLock).
+value_matrix is the systematic operation x prior state x ack outcome matrix for the rollback clause.  Same step format as the TLC-generated behaviours."""
 import random, struct
 
 TF_ACK = 0x1000
@@ -20,13 +22,91 @@ def data_incr(n):
 def data_append(s):
     return frame(3, s.encode())
 
+# ---- the whole value-operation alphabet of spec/ValueReg.tla (frame = LE32(len) . cmd . flag . [LE16(plen) . props] . payload)
+def vframe(ctype, flag=0, payload=b"", props=None):
+    body = bytes([ctype, flag | (0x10 if props is not None else 0)])
+    if props is not None:
+        pr = b"".join(bytes([c]) + struct.pack("<H", len(v)) + v for c, v in props)
+        body += struct.pack("<H", len(pr)) + pr
+    body += payload
+    return struct.pack("<I", len(body)) + body
+
+PROPS = [(1, b"pk"), (2, b"q")]
+def b_set(p, props=None): return vframe(0, 0, p, props)
+def b_unset(): return vframe(1, 0)
+def b_incr(n, props=None): return vframe(2, 1, struct.pack("<q", n), props)
+def b_append(p, props=None): return vframe(3, 0, p, props)
+def b_shift(n): return vframe(4, 1, struct.pack("<I", n))
+def b_pipe(subs): return vframe(6, 0, b"".join(subs))
+def b_push(p, props=None): return vframe(7, 0, p, props)
+def b_pop(n): return vframe(8, 1, struct.pack("<I", n))
+def b_arr(items, props=None): return vframe(0, 2, b"".join(struct.pack("<I", len(i)) + i for i in items), props)
+def b_num(n, props=None): return vframe(0, 1, struct.pack("<q", n), props)
+
+# operation kinds a require-ack LOCK can carry: name -> (frame bytes, type of value it is at home on)
+VALUE_OPS = {
+    "set":            (b_set(b"new"), "str"),
+    "set-props":      (b_set(b"newp", PROPS), "str"),
+    "unset":          (b_unset(), "str"),
+    "incr":           (b_incr(3), "num"),
+    "append":         (b_append(b"+x"), "str"),
+    "append-props":   (b_append(b"+y", [(1, b"zz")]), "str"),
+    "shift":          (b_shift(2), "str"),
+    "push":           (b_push(b"it"), "arr"),
+    "pop":            (b_pop(1), "arr"),
+    "pipe-set":       (b_pipe([b_set(b"aaa")]), "str"),
+    "pipe-append":    (b_pipe([b_append(b"+p")]), "str"),
+    "pipe-incr":      (b_pipe([b_incr(7)]), "num"),
+    "pipe-push":      (b_pipe([b_push(b"pi")]), "arr"),
+    "pipe-unset":     (b_pipe([b_unset()]), "str"),
+    "pipe-set-append": (b_pipe([b_set(b"s1"), b_append(b"s2")]), "str"),
+    "pipe-three":     (b_pipe([b_append(b"a"), b_shift(1), b_append(b"b")]), "str"),
+    "pipe-header-only": (b_pipe([b_append(b""), vframe(0, 0), b_push(b"")]), "str"),   # sub-frames that are a bare cmd + flag
+    "pipe-empty":     (b_pipe([]), "str"),
+    "pipe-nested":    (b_pipe([b_pipe([b_set(b"in")])]), "str"),
+}
+PRIORS = ["none", "unset", "value", "props"]
+OUTCOMES = ["success", "wfail-entry", "wfail-value", "neg", "timeout", "cut", "demote", "unlock"]
+
+def model_op_frame(code, typ, salt=0):
+    """operation code of spec/AckQuorum.tla (After) -> a concrete frame on a value of type typ (str / num / arr)"""
+    sv = {"str": [b_set(b"ma"), b_set(b"mb")], "num": [b_num(11), b_num(22)], "arr": [b_arr([b"a1"]), b_arr([b"b1", b"b2"])]}[typ]
+    mod = {"str": b_append(b"+m"), "num": b_incr(3), "arr": b_push(b"pm")}[typ]
+    trim = {"str": b_shift(1), "num": b_shift(1), "arr": b_pop(1)}[typ]
+    if code == 0:
+        return b""
+    if code in (1, 2):
+        return sv[code - 1]
+    if code == 3:
+        return b_unset()
+    if code == 4:
+        return mod
+    if code == 5:
+        return trim
+    if code == 6:
+        return b_pipe([sv[0]])
+    if code == 7:
+        return b_pipe([mod])
+    return [b_pipe([]), b_pipe([b_shift(0)]), b_pipe([b_pop(0)])][salt % 3]
+
+def prior_frame(prior, typ):
+    """the value the key holds before the ack lock (None: no value at all)"""
+    props = PROPS if prior == "props" else None
+    if prior == "none":
+        return None
+    if typ == "num":
+        return b_num(41, props)
+    if typ == "arr":
+        return b_arr([b"i1", b"i22", b"i333"], props)
+    return b_set(b"base-value", props)
+
 def lock(rid, key, lid, ack, to, ex=30, cnt=0, data="", conn=None):
     return {"op": "lock", "id": rid, "conn": conn or (1 + lid % 3), "db": 0, "key": key, "lid": lid, "flag": 0, "tf": TF_ACK if ack else 0,
             "ef": 0, "to": to, "ex": ex, "cnt": cnt, "rc": 0, "data": data}
 
-def unlock(rid, key, lid, conn=None):
+def unlock(rid, key, lid, conn=None, data="", cnt=0):
     return {"op": "unlock", "id": rid, "conn": conn or (1 + lid % 3), "db": 0, "key": key, "lid": lid, "flag": 0, "tf": 0, "ef": 0, "to": 0, "ex": 0,
-            "cnt": 0, "rc": 0}
+            "cnt": cnt, "rc": 0, "data": data}
 
 def fack(f, target, key, lid, ok=True, park=False):
     d = {"op": "fack", "f": f, "target": target, "res": 0 if ok else 11, "db": 0, "key": key, "lid": lid}
@@ -41,15 +121,23 @@ def gen_ack(seed, i):
     nkeys = rng.choice([1, 1, 2])
     shared = rng.random() < 0.15
     numeric = {k: rng.random() < 0.4 for k in range(1, nkeys + 1)}   # value kind per key
+    ktype = {k: ("num" if numeric[k] else rng.choice(["str", "str", "arr"])) for k in numeric}
+    anchored = {k: rng.random() < 0.45 for k in numeric}             # Count-1 key kept alive by a dataless anchor hold (see prelude)
     steps, rid = [], 0
     acks = []          # (rid, key, lid) of ack requests issued so far
     up = set(range(1, nf + 1))
     faults = rng.choice(["none", "neg", "fail", "cut", "dem", "mix", "neg", "cut", "fail", "mix"])
     demoted = False
     recbad = valbad = False     # state of the two log files (entries / values)
-    # optionally give the keys a value first (plain lock + unlock)
+    def nxt():
+        nonlocal rid
+        rid += 1
+        return rid
+    # prior state of the keys: anchored keys keep whatever the prelude leaves there (none / unset / value / value with properties)
     for k in range(1, nkeys + 1):
-        if rng.random() < 0.5:
+        if anchored[k]:
+            prelude(steps, nxt, k, rng.choice(PRIORS), ktype[k])
+        elif rng.random() < 0.5:
             rid += 1
             steps.append(lock(rid, k, 9, False, 0, ex=5, data=data_incr(rng.randint(1, 9)) if numeric[k] else data_set("v%d" % rng.randint(0, 9))))
             rid += 1
@@ -63,17 +151,16 @@ def gen_ack(seed, i):
         if x < 0.30:
             rid += 1
             d = ""
-            if rng.random() < 0.5:
-                if numeric[k]:
-                    d = data_incr(rng.randint(1, 5))
-                else:
-                    d = rng.choice([data_set("s%d" % rid), data_append("a%d" % rid)])
+            if rng.random() < 0.6:
+                # any value operation a require-ack lock can carry; mostly one that is at home on the key's value type
+                fit = [n for n, (_, t) in VALUE_OPS.items() if t == ktype[k] or n in ("unset", "pipe-unset", "pipe-empty")]
+                d = VALUE_OPS[rng.choice(fit if rng.random() < 0.7 else list(VALUE_OPS))][0].hex()
             to = rng.choice([1, 2, 3, 5])
-            steps.append(lock(rid, k, lid, True, to, cnt=(1 if shared and rng.random() < 0.5 else 0), data=d))
+            steps.append(lock(rid, k, lid, True, to, cnt=(1 if anchored[k] or (shared and rng.random() < 0.5) else 0), data=d))
             acks.append((rid, k, lid))
         elif x < 0.42:
             rid += 1
-            steps.append(lock(rid, k, lid, False, rng.choice([0, 0, 2, 4, 6]), ex=rng.choice([3, 30])))
+            steps.append(lock(rid, k, lid, False, rng.choice([0, 0, 2, 4, 6]), ex=rng.choice([3, 30]), cnt=1 if anchored[k] else 0))
         elif x < 0.50 and acks:
             # a request naming the LockId of a (probably) pending ack request
             r0, k0, l0 = rng.choice(acks[-3:])
@@ -189,6 +276,97 @@ def flush_matrix(seed, sample=None):
                             out.append(flush_case(nf, mode, fault, carrier, pos, order, rng.random() < 0.4, f"{seed}-"))
     if sample is not None and sample < len(out):
         out = rng.sample(out, sample)
+    return out
+
+
+def prelude(steps, nxt, key, prior, typ, cnt=1):
+    """Bring the key into a prior state and keep it there: the value lives in the key's manager, which is recycled when nobody
+    holds or waits - so a dataless ANCHOR hold (LockId 9) on a key with room for two holders (Count 1) keeps it alive; the
+    value is put there by a separate lock / unlock pair (LockId 8); 'unset': a value, then an UNSET (the value object stays,
+    marked unset)."""
+    steps.append(lock(nxt(), key, 9, False, 0, ex=120, cnt=cnt))
+    pf = prior_frame("value" if prior == "unset" else prior, typ)
+    if pf is not None:
+        steps.append(lock(nxt(), key, 8, False, 0, ex=60, cnt=cnt, data=pf.hex()))
+        steps.append(unlock(nxt(), key, 8, cnt=cnt))
+    if prior == "unset":
+        steps.append(lock(nxt(), key, 8, False, 0, ex=60, cnt=cnt, data=b_unset().hex()))
+        steps.append(unlock(nxt(), key, 8, cnt=cnt))
+
+def value_case(opname, prior, outcome, nf, mode, shape, tag):
+    """One directed history for the rollback clause: key in `prior` state; B = require-ack lock carrying value operation
+    `opname`; W = a plain dataless request queued behind B (it must be served, and with the value before B's grant, when B
+    fails); a request naming B's LockId while B is pending; then `outcome`.  shape 'anchor': Count-1 key with the anchor
+    hold (any prior); 'bare': exclusive fresh key, B is the first holder (prior none only)."""
+    steps, rid = [], 0
+    def nxt():
+        nonlocal rid
+        rid += 1
+        return rid
+    frame_b, typ = VALUE_OPS[opname]
+    cnt = 1 if shape == "anchor" else 0
+    if shape == "anchor":
+        prelude(steps, nxt, 1, prior, typ)
+    b = nxt()
+    steps.append(lock(b, 1, 1, True, 3, ex=40, cnt=cnt, data=frame_b.hex()))
+    steps.append(lock(nxt(), 1, 7, False, 9, ex=30, cnt=cnt))        # W: queued behind B
+    steps.append(lock(nxt(), 1, 1, False, 0, cnt=cnt))                # names B's LockId
+    def facks(ok=True, only=None):
+        for f in range(1, nf + 1):
+            if only is None or f in only:
+                steps.append(fack(f, b, 1, 1, ok=ok))
+    good = {"op": "flush", "ok": True, "rec": "ok", "val": "ok", "mid": True}
+    if outcome == "success":
+        facks()
+        steps.append(good)
+    elif outcome == "wfail-entry":
+        facks()
+        steps.append({"op": "flush", "ok": False, "rec": "fail", "val": "ok", "mid": True})
+    elif outcome == "wfail-value":
+        facks()
+        steps.append({"op": "flush", "ok": False, "rec": "ok", "val": "fail", "mid": True})
+    elif outcome == "neg":
+        steps.append(good)
+        facks(ok=False, only={1})
+        facks(ok=True, only=set(range(2, nf + 1)))
+    elif outcome == "timeout":
+        steps.append(good)
+        steps.append({"op": "tick", "n": 5})
+    elif outcome == "cut":
+        steps.append(good)
+        steps.append({"op": "cut", "f": 1})
+        steps.append({"op": "tick", "n": 5})
+    elif outcome == "demote":
+        steps.append(good)
+        steps.append({"op": "demote"})
+    elif outcome == "unlock":
+        steps.append(good)
+        steps.append(unlock(nxt(), 1, 1, cnt=cnt))                    # pre-emption attempt while pending
+        steps.append({"op": "tick", "n": 5})
+    steps.append({"op": "tick", "n": 1})
+    steps.append({"op": "drain", "n": 12})
+    return {"name": f"ackval-{tag}{opname}-on-{prior}-{outcome}-nf{nf}-m{mode}-{shape}", "followers": nf, "mode": mode, "steps": steps, "complete": True, "cfg": {}}
+
+def value_matrix(seed, per_cell=None):
+    """value operation kind x prior state of the key x ack outcome (x seeded: followers, ack mode, anchor / bare shape).
+    per_cell: number of outcomes drawn per (operation, prior) cell (None: all eight); at least two of them are failures."""
+    rng = random.Random(seed * 6701 + 29)
+    out = []
+    for opname in VALUE_OPS:
+        for prior in PRIORS:
+            outs = list(OUTCOMES)
+            if per_cell is not None and per_cell < len(outs):
+                fails = [o for o in outs if o != "success"]
+                rng.shuffle(fails)
+                pick = fails[:max(2, per_cell - 1)]
+                if len(pick) < per_cell:
+                    pick.append("success")
+                outs = pick
+            for outcome in outs:
+                nf = rng.choice([1, 1, 2, 2]) if outcome in ("neg", "cut") else rng.choice([0, 1, 2])
+                mode = rng.choice([0, 0, 1])
+                shape = "bare" if prior == "none" and rng.random() < 0.5 else "anchor"
+                out.append(value_case(opname, prior, outcome, nf, mode, shape, f"{seed}-"))
     return out
 
 
